@@ -13,6 +13,18 @@ global load and attribute chain of the function body (`callFn`).  "No code path 
 referring to a name that is not defined" is `Safe`: every callable function runs to its end,
 i.e. without `NameError` / `AttributeError` on a lena module / `ImportError` for a lena name. -/
 
+/-! ## which clause of the statement is formalised where
+
+| clause | here |
+|---|---|
+| 1a "every name a subpackage advertises in `__all__` exists, so star imports work" | `exported_of_resolvesAll`, `exported_envs`; instance `all_exported` (`__all__` must be a literal list: `allDynamic = false` is part of the conclusion, a computed `__all__` makes the check fail) |
+| 1b "every public element behaves the same with only its own subpackage imported" | **not proved**: `behaves_same_full` (definition); `behaves_same_partial` is what the model says; evidence: behaviour cases only |
+| 2a "no code path can fail by referring to a name that is not defined" | `resolver_sound`, `resolver_sound_envs`, converse `resolver_alarm_is_real`; instance `current_tree_safe`. Global names, import-bound locals, module aliases, closure cells, attributes of lena modules; ordinary locals: `no_unbound_local_full` (definition), `locals_audited_partial` |
+| 2b "invalid arguments and missing keys are reported with the documented LenaException subclasses" | **not proved** as stated: `invalid_arguments_reported_full` (definition); proved over the facts: `exceptions_of_ok` (every `raise` statement names a documented exception) |
+| anchor "all Lena exceptions derive from LenaException" | `exceptions_of_ok`; instance `lena_exceptions_derive` |
+| anchor "`lena.<pkg>` exists only after somebody imported it" | `module_value_is_imported`, `sys_modules_grow`, `loaded_within_closure` |
+| quantifier "all import orders 'only subpackage X'", every environment | `current_tree_safe` over `Gen.current.entries` × `Gen.current.envs` | -/
+
 namespace Lena.C20
 
 /-! ## what a program can do after the import -/
